@@ -16,6 +16,7 @@ func verif_symDatastore(name string) datastore.Datastore { panic("intrinsic") }
 func verif_keystore() keystore.Keystore                  { panic("intrinsic") }
 func verif_background() context.Context                  { panic("intrinsic") }
 func verif_anyCid(name string) cid.Cid                   { panic("intrinsic") }
+func verif_cidN(i int) cid.Cid                           { panic("intrinsic") }
 func verif_honestKey(k crypto.PrivKey)                   { panic("intrinsic") }
 func verif_secretSymKey(k []byte)                        { panic("intrinsic") }
 
